@@ -364,8 +364,8 @@ def lean_lines(op):
         return ["op\tupdateread\t" + op[1]]
     if n == "clear":
         return ["op\tclear"]
-    if n == "build":
-        return ["op\tbuild"]
+    if n in ("build", "setrm"):
+        return ["op\tbuild"]  # a swapped-in empty role manager followed by build_role_links = a rebuild
     if n == "save":
         return ["op\tsave"]
     if n == "load":
@@ -465,6 +465,11 @@ def impl_call(e, op, is_async):
     if n == "clear":
         return call("clear_policy")
     if n == "build":
+        return call("build_role_links")
+    if n == "setrm":
+        # replace the role manager of every role definition by a new, empty one of the same class, then rebuild
+        for pt, rm in list(e.rm_map.items()):
+            e.set_named_role_manager(pt, type(rm)(10))
         return call("build_role_links")
     if n == "save":
         return call("save_policy")
